@@ -678,7 +678,9 @@ fn fill_options(rng: &mut Rng) -> FillOptions {
     FillOptions::tolerance(*rng.pick(&[0.01f32, 0.1, 0.5]))
         .with_fill_rule(if rng.chance(1, 2) { FillRule::EvenOdd } else { FillRule::NonZero })
         .with_sweep_orientation(if rng.chance(1, 2) { Orientation::Vertical } else { Orientation::Horizontal })
-        .with_intersections(rng.chance(7, 8))
+        // `handle_intersections: false` is documented as "may panic" on intersecting input: only the
+        // ellipse entry (which sets it itself, on an intersection-free outline) exercises it
+        .with_intersections(true)
 }
 
 const STROKE_ENTRIES: [&str; 8] = ["events", "path", "ids", "vw", "builder", "rect", "circle", "ellipse"];
@@ -980,6 +982,9 @@ fn main() {
             let ell = (point(rng.range(-4, 4) as f32, rng.range(-4, 4) as f32), vector(rng.range(1, 6) as f32, rng.range(1, 6) as f32), rng.uniform(0.0, 3.0) as f32);
             let path = build_path(&cmds, None);
             let path_attr = build_path(&cmds, Some(&[1.0, 2.0, 0.5]));
+            if std::env::var("C04_TRACE_PANICS").is_ok() {
+                eprintln!("input: entry={} opts={:?} cmds={:?}", entry, opts, cmds);
+            }
             let run = move |out: &mut dyn FillGeometryBuilder, log: &Log| -> TessellationResult {
                 let mut tess = FillTessellator::new();
                 match entry {
@@ -1000,7 +1005,8 @@ fn main() {
             spec.put(&mut args);
             args.t(if entry == "badtol" { "tolbad" } else { "tolok" });
             args.t(match &reference.result {
-                Some(Ok(())) | None => "coreok",
+                None => "corepanic",
+                Some(Ok(())) => "coreok",
                 Some(Err(TessellationError::Internal(_))) => "coreinternal",
                 Some(Err(TessellationError::UnsupportedParamater(_))) => "coreunsupported",
                 Some(Err(TessellationError::GeometryBuilder(_))) => "coregb",
@@ -1010,8 +1016,16 @@ fn main() {
             put_ks(&mut args, &ks);
             let trivial = if nv == 0 { " trivial" } else { "" };
             let tag = format!("fill {} {} {} nv<={}{}", entry, pkind, spec.tag(), (nv / 8 + 1) * 8, trivial);
+            let ref_panicked = reference.panicked;
             drop(job);
             (args, tag, move || {
+                if ref_panicked {
+                    // the tessellation core itself panics on this input against a never-failing builder:
+                    // not a statement about the builder protocol (fill-core robustness is C01/C02's subject)
+                    let mut o = Out::new();
+                    o.t("refpanic");
+                    return CaseOut { imp: o, orcl: vh::Verdict::Skip("reference-run-panics".into()) };
+                }
                 let job = Job::Fill(&run);
                 enumerate(Kind::Fill, "fill", &spec, &ks, &job)
             })
@@ -1059,13 +1073,20 @@ fn main() {
             let mut args = Out::new();
             spec.put(&mut args);
             args.t(if iter_mode { "iter" } else if entry == "builder" { "driven" } else { "opaque" });
+            args.t(if reference.panicked { "refpanic" } else { "refok" });
             let nv = put_script(&mut args, &reference.trace, true);
             let ks = k_list(nv, rng);
             put_ks(&mut args, &ks);
             let trivial = if nv == 0 { " trivial" } else { "" };
             let tag = format!("stroke {} {} {} nv<={}{}", entry, pkind, spec.tag(), (nv / 16 + 1) * 16, trivial);
+            let ref_panicked = reference.panicked;
             drop(job);
             (args, tag, move || {
+                if ref_panicked {
+                    let mut o = Out::new();
+                    o.t("refpanic");
+                    return CaseOut { imp: o, orcl: vh::Verdict::Skip("reference-run-panics".into()) };
+                }
                 let job = Job::Stroke(&run);
                 enumerate(Kind::Stroke, "stroke", &spec, &ks, &job)
             })
